@@ -488,3 +488,98 @@ def window_decoder_sites(fb):
                         any(R.derives_from_local(g, a, i + 1) for i in win_args) for a in gc["args"]):
                     check(g, gb, gc, f.key)
     return out
+
+
+# ------------------------------------------------------------------------------------------------ fill_buf loops end at EOF
+EMPTY_TEST_RX = re.compile(r"(::is_empty|::len|::first|::split_first|::get|::last|::split_last|::starts_with|::ends_with)$")
+
+# reviewed: loops whose EOF exit is not a direct test-controlled edge (key = function)
+FILL_LOOP_TABLE = {
+    "noodles_fasta::io::reader::sequence::consume_empty_lines":
+        "leaves when neither window starts with CR / LF: `starts_with` is false on an empty window, the flag `is_newline` stays false "
+        "and the `if !is_newline { break }` exit is taken (flag-controlled exit; the rule follows direct test edges only)",
+}
+
+
+def fill_loop_eof_rule(ctx, rule, floor):
+    sites = fill_loop_eof_sites(ctx.fb)
+    n = 0
+    for s in sites:
+        f = ctx.fb.fns[s["fn"]]
+        ctx.saw_fn(f)
+        n += 1
+        root = f.root if hasattr(f, "root") else s["fn"]
+        if s["eof_exit"]:
+            ctx.ok(rule, "%s :: loop around %s" % (s["fn"], s["callee"].split("::")[-1]),
+                   "an exit edge of the loop is controlled by the emptiness of the window (%d switch block(s))" % len(s["exit_blocks"]), f.loc(s["block"]))
+        elif root in FILL_LOOP_TABLE or s["fn"] in FILL_LOOP_TABLE:
+            ctx.ok(rule, "%s :: loop around %s" % (s["fn"], s["callee"].split("::")[-1]), "tabled: " + FILL_LOOP_TABLE.get(root, FILL_LOOP_TABLE.get(s["fn"])), f.loc(s["block"]))
+        else:
+            ctx.violation(rule, "%s/fill-loop-without-eof-exit/%s" % (rule, root),
+                          "%s loops around %s but no exit of the loop depends on the window being empty (is_empty / len / first / "
+                          "starts_with): an empty window is BufRead's only end-of-stream signal, so on a stream that ends before the "
+                          "terminator the loop calls consume(0) forever" % (s["fn"], s["callee"].split("::")[-1]), f.loc(s["block"]))
+    ctx.floor(rule, "fill_buf calls inside loops", n, floor)
+
+
+
+def fill_loop_eof_sites(fb):
+    """For every fill_buf call inside a loop: does the loop have an exit edge controlled by the emptiness of the window
+    (`src.is_empty()`, a length compared with 0, `first()`/`get(0)` being None)? An empty window is the only EOF signal of BufRead;
+    a scanning loop that leaves only when it finds its terminator spins forever on a truncated stream (consume(0) changes nothing)."""
+    from . import a10
+    out = []
+    for k, f in sorted(fb.fns.items()):
+        if not in_scope(f) or not f.blocks:
+            continue
+        loops = None
+        for b, c in f.calls():
+            fk = c.get("f") or ""
+            if not FILL_BUF.search(fk):
+                continue
+            if loops is None:
+                loops = C.natural_loops(f)
+            mine = [body for h, body in loops if b in body]
+            if not mine:
+                continue
+            body = min(mine, key=len)
+            d = c.get("dest")
+            if d is None or d[1]:
+                continue
+            win = a10._derived_from(f, d[0])
+            tests = set()
+            for b2, c2 in f.calls():
+                fk2 = c2.get("f") or ""
+                if b2 in body and EMPTY_TEST_RX.search(fk2) and c2["args"] and C.op_local(c2["args"][0]) in win and c2.get("dest") and not c2["dest"][1]:
+                    tests |= a10._derived_from(f, c2["dest"][0])
+            exits = []
+            for s in body:
+                t = f.blocks[s]["t"]
+                if t[0] != "sw":
+                    continue
+                l = C.op_local(t[1])
+                if l is None or l not in tests:
+                    continue
+                targets = [tg for _v, tg in t[2]] + ([t[3]] if t[3] is not None else [])
+                if any(tg not in body for tg in targets) or any(_leaves(f, tg, body) for tg in targets):
+                    exits.append(s)
+            out.append({"fn": k, "block": b, "callee": fk, "eof_exit": bool(exits), "exit_blocks": sorted(exits), "loop_size": len(body)})
+    return out
+
+
+def _leaves(f, start, body):
+    """Does control from `start` leave the loop body without passing another switch (break through drops / gotos)?"""
+    b = start
+    for _ in range(12):
+        if b not in body:
+            return True
+        t = f.blocks[b]["t"]
+        if t[0] == "goto":
+            b = t[1]
+        elif t[0] == "drop":
+            b = t[2]
+        elif t[0] == "fe":
+            b = t[1]
+        else:
+            return False
+    return False
